@@ -176,3 +176,59 @@ Example in_list_presorted_needs_exactly_eight :
                             [c11_letters n; rev (c11_letters n)])
           [1; 2; 3; 4; 5; 6; 7; 9; 10; 16; 17]%nat = true.
 Proof. vm_compute. reflexivity. Qed.
+
+(* ---- ninth wave: literals whose text has a reading in another notation ---- *)
+
+(* non-vacuity: the literals of 007, +7, 7 and of %20, a blank denote exactly their own text, alone and in a list made of
+   digit strings only *)
+Definition c11_007 : str := [48; 48; 55].
+Definition c11_plus7 : str := [43; 55].
+Definition c11_7 : str := [55].
+Definition c11_pct20 : str := [37; 50; 48].
+
+Example other_notation_literals :
+  in_query tok_in [literal_full c11_007] (Some c11_007) = true /\
+  in_query tok_in [literal_full c11_007] (Some c11_7) = false /\
+  in_query tok_in (map literal_full [c11_007; c11_plus7]) (Some c11_7) = false /\
+  in_query tok_not_in (map literal_full [c11_007; c11_plus7]) (Some c11_7) = true /\
+  cmp_query SEq (literal_full c11_pct20) (Some c11_pct20) = true /\
+  cmp_query SEq (literal_full c11_pct20) (Some [32]) = false /\
+  cmp_query SNeq (literal_full c11_pct20) (Some [32]) = true /\
+  contains_query [99; 111; 110; 116; 97; 105; 110; 115] (literal_full c11_pct20) (Some [97; 32; 98]) = false.
+Proof. vm_compute. repeat split. Qed.
+
+(* a reading that is NOT the code's: a list whose literals all look like integers (optional sign, digits) is taken for a
+   number list and its values are rendered back in canonical form (no plus sign, no leading zeros, -0 = 0) *)
+Definition c11_digit (c : N) : bool := (48 <=? c) && (c <=? 57).
+Fixpoint c11_strip_zeros (s : str) : str :=
+  match s with
+  | 48 :: (_ :: _) as r => c11_strip_zeros r
+  | _ => s
+  end.
+Definition c11_intlike (s : str) : bool :=
+  match s with
+  | 43 :: (_ :: _) as r | 45 :: (_ :: _) as r => forallb c11_digit r
+  | _ :: _ => forallb c11_digit s
+  | [] => false
+  end.
+Definition c11_canonical_int (s : str) : str :=
+  match s with
+  | 43 :: r => c11_strip_zeros r
+  | 45 :: r => match c11_strip_zeros r with [48] => [48] | r' => 45 :: r' end
+  | _ => c11_strip_zeros s
+  end.
+Definition in_list_quoted_ints_folded (vals : list str) (x : str) : bool :=
+  let consts := map parse_zql_string (map literal_full vals) in
+  if forallb c11_intlike consts then existsb (str_eqb x) (map c11_canonical_int consts) else existsb (str_eqb x) consts.
+
+Example quoted_ints_folded_refuted :
+  exists vals x, in_list_quoted_ints_folded vals x <> in_query tok_in (map literal_full vals) (Some x).
+Proof. exists [c11_007], c11_007. vm_compute. discriminate. Qed.
+
+(* ... which lists of canonical integers, and lists with one literal that is no integer, cannot tell from the code: why the
+   earlier streams (values 0, -1, letters, keywords) could not see it *)
+Example quoted_ints_folded_needs_a_non_canonical_literal :
+  forallb (fun l => forallb (fun x => Bool.eqb (in_list_quoted_ints_folded l x) (in_query tok_in (map literal_full l) (Some x)))
+                            ([c11_7; c11_007; c11_plus7; [48]; [45; 49]; [97]] ++ l))
+          [[c11_7]; [[48]]; [[45; 49]]; [c11_7; [56; 48]]; [c11_007; [97]]; [c11_plus7; c11_007; [55; 120]]; [[49; 46; 48]]] = true.
+Proof. vm_compute. reflexivity. Qed.
